@@ -20,8 +20,8 @@ RULE = ("exhaustive: every unary/binary operator x operand shapes {u0..u3,s1..s3
 MODELLED = ("value nodes of hdl/_ast.py (Const, Signal, Operator, Slice, Part, Concat, SwitchValue) and their shape() in "
             "coq/Model/Ast.v; _RHSValueCompiler in coq/Model/PyRTL.v (raw-integer semantics of the generated Python); "
             "_pyeval.eval_value in coq/Model/PyEval.v; the rewriting definitions of abs/shift_*/rotate_*/replicate/matches/__getitem__/"
-            "Mux/ArrayProxy.as_value in coq/Model/Derived.v (replicate, matches, stepped slices: tied by the run only, "
-            "no theorem). exec() of generated code, ValueVisitor dispatch, the delta-cycle "
+            "Mux/ArrayProxy.as_value in coq/Model/Derived.v (stepped slices and Python slice normalisation: tied by the run only, no theorem)."
+            " exec() of generated code, ValueVisitor dispatch, the delta-cycle "
             "engine and Signal commit are exercised by the differential run only")
 ASSUMPTIONS = ["signals hold normalised values (env_ok), as _PySignalState guarantees"]
 
@@ -90,6 +90,36 @@ def gen_cases(tier, seed):
         g = G.Gen(rng, sigs, maxw=maxw, maxtotal=48 if maxw <= 8 else 120)
         e = g.expr(rng.randrange(1, 5 if not thorough else 7))
         cases.append({"stream": "rnd", "sigs": sigs, "e": e, "stims": G.stimuli(rng, sigs, 6)})
+    # exhaustive small-scope families for the derived operators
+    import itertools as _it
+    for sh in SMALL_SHAPES:
+        w, sg = sh
+        vals = [[v] for v in all_values(*sh)]
+        one = lambda e: cases.append({"stream": "exd", "sigs": [sh], "e": e, "stims": vals})
+        one(["d_abs", ["s", 0]])
+        for n in range(0, w + 3):
+            one(["d_shl", ["s", 0], n])
+            one(["d_shr", ["s", 0], n])
+        for n in range(-2 * w - 1, 2 * w + 2):
+            one(["d_rol", ["s", 0], n])
+            one(["d_ror", ["s", 0], n])
+        for k in range(0, 4):
+            one(["d_rep", ["s", 0], k])
+        for i in range(-w, w):
+            one(["d_idx", ["s", 0], i])
+        for a in range(-w - 1, w + 2):
+            for b in range(-w - 1, w + 2):
+                one(["d_slice", ["s", 0], a, b])
+        for pat in _it.product("01-", repeat=w):
+            p = "".join(pat)
+            one(["d_match", ["s", 0], [p], [p]])
+        lo, hi = (-(1 << (w - 1)), 1 << (w - 1)) if sg else (0, 1 << w)
+        if w == 0:
+            lo, hi = 0, 1
+        for v in range(lo - 1, hi + 1):
+            one(["d_match", ["s", 0], [G._binpat(w, v)] if lo <= v < hi else [], [v]])
+        if w >= 1:
+            one(["d_match", ["s", 0], [G._binpat(w, lo), "1" * w], [lo, "1" * w]])
     # derived operators (abs, shifts/rotates by constants, replicate, matches, indexing/slicing, Mux, Array)
     D = 1500 if not thorough else 30000
     for i in range(D):
